@@ -7,8 +7,8 @@
       Ok None         = prove_tautology returns None (declines)
       Err             = AssertionError;   Fuel = the explicit fuel ran out (excluded in the statements)
     [ns] = g_resolution_no_shadow: [true] is the repaired loop (current tree), [false] the pinned loop (D6). *)
-From Coq Require Import ZArith NArith List Bool.
-From Pi2 Require Import Taut.Model Taut.Stages Taut.Sets Taut.Resolution Taut.Complete Taut.Termination.
+From Coq Require Import ZArith NArith List Bool Lia.
+From Pi2 Require Import Taut.Model Taut.Stages Taut.Sets Taut.Resolution Taut.Complete Taut.Termination Taut.PLModel Taut.ProofLayer.
 Import ListNotations.
 
 (* ------------------------------------------------------------------------------------------ *)
@@ -60,6 +60,10 @@ Proof.
   intro v. destruct (to_clauses_sound v t H) as (cs' & E' & _ & Htt). congruence.
 Qed.
 Print Assumptions C09_to_clauses.
+Example C09_to_clauses_nonvacuous :
+  is_cnf (CAnd false (COr false (CVar false 0) (CVar true 1)) (CVar false 2)) = true /\
+  to_clauses (CAnd false (COr false (CVar false 0) (CVar true 1)) (CVar false 2)) = Some [[1; -2]; [3]]%Z.
+Proof. split; reflexivity. Qed.
 
 (* ------------------------------------------------------------------------------------------ *)
 (** * 2. resolvable / merge: the resolvent is implied by its parents *)
@@ -80,6 +84,10 @@ Theorem C09_resolution_loop_sound : forall ns fuel h l b l' h',
   (b = true -> forall v, ~ sat_all v l) /\ (forall v, sat_all v l -> sat_all v l').
 Proof. exact resolution_algorithm_sound. Qed.
 Print Assumptions C09_resolution_loop_sound.
+Example C09_resolution_loop_sound_nonvacuous :
+  exists l h, resolution_algorithm false 100 [([1]%Z, HIdx 0); ([-1]%Z, HIdx 1)] [[1]%Z; [-1]%Z] = Ok (true, l, h)
+              /\ all_nz [[1]%Z; [-1]%Z].
+Proof. eexists _, _. split; [vm_compute; reflexivity|]. repeat constructor; unfold nz; discriminate. Qed.
 
 (* ------------------------------------------------------------------------------------------ *)
 (** * 3. soundness of the verdicts — all formulas, any fuel, both loop variants *)
@@ -128,6 +136,19 @@ Proof.
   - apply pairwise_sem_closed; auto.
 Qed.
 Print Assumptions C09_resolution_complete.
+Example C09_resolution_complete_nonvacuous :
+  pairwise_closed [[1; 2]; [-1; 2]; [2]]%Z /\ Forall good [[1; 2]; [-1; 2]; [2]]%Z /\ ~ In [] [[1; 2]; [-1; 2]; [2]]%Z.
+Proof.
+  split; [|split].
+  - intros a b ca cb Hba Ha Hb r rs E.
+    destruct a as [|[|[|a]]]; cbn in Ha; try discriminate;
+      destruct b as [|[|[|b]]]; cbn in Hb; try discriminate; try lia;
+      inversion Ha; inversion Hb; subst; vm_compute in E; try discriminate; inversion E; cbn; auto.
+    all: try (destruct a; discriminate); try (destruct b; discriminate).
+    Show.
+  - repeat constructor; unfold nz; discriminate.
+  - cbn. intros [H|[H|[H|[]]]]; discriminate.
+Qed.
 
 (** the procedure never raises *)
 Theorem C09_decide_no_err : forall ns fuel f, decide ns fuel f <> Err.
@@ -152,6 +173,8 @@ Proof. repeat split; vm_compute; reflexivity. Qed.
 Theorem C09_decide_terminates : forall f fuel, (enough_fuel f <= fuel)%nat -> decide true fuel f <> Fuel.
 Proof. exact decide_terminates. Qed.
 Print Assumptions C09_decide_terminates.
+Example C09_decide_terminates_nonvacuous : (enough_fuel (FVar 0) <= 10)%nat /\ decide true 10 (FVar 0) = Ok None.
+Proof. split; vm_compute; [repeat constructor|reflexivity]. Qed.
 
 (** unconditional statement of the property (verdict layer): for every formula the repaired procedure,
     run with enough fuel, returns — and returns `proved` iff tautology, `refuted` iff unsatisfiable,
@@ -166,7 +189,7 @@ Print Assumptions C09_decide_total.
 (** * 5. D6 (pinned loop, g_resolution_no_shadow = false): a tautology gets the verdict "inconclusive" *)
 
 Theorem C09_refuted_shadow :
-  exists f, tautology f /\ decide false 5000 f = Ok None /\ decide true 5000 f = Ok (Some true).
+  exists f, tautology f /\ decide false 1000 f = Ok None /\ decide true 1000 f = Ok (Some true).
 Proof.
   exists d6_witness. split.
   - intro v. unfold d6_witness. cbn. destruct (v 0%N), (v 1%N); reflexivity.
@@ -191,3 +214,35 @@ Proof.
   intros [H|[H|[H|[H|[]]]]]; discriminate.
 Qed.
 Print Assumptions C09_saturate_refuted_shadow.
+
+(* ------------------------------------------------------------------------------------------ *)
+(** * 6. proof layer (schema level, see Taut/PLModel.v) — PARTIAL
+
+    Full statement (not proved in Coq):
+      for every propositional pattern f, each stage (to_conj_form, propag_neg, to_cnf, to_clauses)
+      returns ProofThunks whose conclusions are literally `f -> stage f` and `stage f -> f`, and
+      prove_tautology returns a ProofThunk whose conclusion is literally `f` (verdict True) or `neg f`
+      (verdict False); every ProofThunk replays on the interpreters using only Prop1-3, MP, Instantiate
+      and the six declared Tautology axioms.
+    Proved here: the first three stages (to_conj_form, propag_neg, to_cnf incl. its imp_trans_match1/2
+    steps against the or_distr axioms), at the level of the docstring schemas of the library rules (that each rule
+    proves its schema is C10): the composition never hits a failing assert and yields exactly the
+    advertised conclusions.  Missing: to_clauses (and_assoc / or_assoc shifting with MetaVar(i+3)),
+    ac_move_to_front, simplify_clause, merge_clauses, build_proof_from_hint and the final glue.  The full statement is checked on the implementation on every run (runner command Q: every
+    returned ProofThunk is executed under StatefulInterpreter, conclusions compared literally). *)
+
+Theorem C09_stage_proofs_conc_partial :
+  (forall p, exists l r, tcfp p = Some (tcf p, l, r) /\ conj_spec p (tcf p) l r) /\
+  (forall t b, is_orform t = true ->
+     exists t' p1 p2, pnp b t = Some (t', p1, p2) /\ pn b t = Some t' /\
+       p1 = KImp (pn_input b t) (cf_core t') /\ p2 = KImp (cf_core t') (pn_input b t)) /\
+  (forall fuel t t', to_cnf fuel t = Ok t' -> is_nnf t = true ->
+     to_cnf_p fuel t = Ok (t', KImp (cf_core t) (cf_core t'), KImp (cf_core t') (cf_core t))).
+Proof. split; [exact tcfp_conc|split; [exact pnp_conc|exact to_cnf_p_conc]]. Qed.
+Print Assumptions C09_stage_proofs_conc_partial.
+Example C09_stage_proofs_conc_nonvacuous :
+  tcfp (expand (FImp (FVar 0) (FVar 1))) =
+  Some (COr false (CVar true 0) (CVar false 1),
+        KImp (KImp (KVar 0) (KVar 1)) (KImp (nn (KVar 0)) (KVar 1)),
+        Some (KImp (KImp (nn (KVar 0)) (KVar 1)) (KImp (KVar 0) (KVar 1)))).
+Proof. reflexivity. Qed.
